@@ -47,6 +47,19 @@ def _atom_names(case):
 
 def run(ctx, prop, quick_cfg, thorough_cfg, kinds, regress_cfg=None, min_cases=1000):
     cfg = quick_cfg if ctx.quick else thorough_cfg
+    if ctx.replay:
+        # bin/check <ID> --replay <file>: re-run one recorded case on the real code (no model run)
+        d = json.load(open(ctx.replay))
+        case = (d.get("replay") or {}).get("case") or d.get("case")
+        if not case:
+            ctx.inconclusive("replay file %s carries no case" % ctx.replay)
+            return
+        path = os.path.join(ctx.work, "cases.ndjson")
+        _write_cases(path, [case])
+        ctx.cov["evaluations"] = 1
+        ctx.sample({"replayed": case.get("req"), "steps": case.get("steps")})
+        ctx.go_driver("shwapverify", env={"VERIF_CASES": path, "VERIF_PROP": prop}, timeout=900)
+        return
     ctx.assume("ideal cryptography: hashes are injective and domain separated (IdealCrypto.tla); "
                "Reed-Solomon parity is a free function of the data except for constant sequences")
     ctx.assume("small-scope: ODS width 1, 2, 4; second square shares row 0 with the first; forgeries are "
